@@ -3,7 +3,7 @@
    Model: Model/Patch.v (parser, hunks, Workspace::apply_patch with the first-seen undo list) over
    the file-system model Base/Fs.v.  `apply_patch true` is the code after fix 6739939, `apply_patch
    false` the code before it. *)
-From RipV Require Import Base.Prelude Base.Fs Model.Patch Proofs.FsProofs Proofs.PatchProofs Proofs.PatchAtomic Proofs.PatchText Proofs.PatchParse.
+From RipV Require Import Base.Prelude Base.Fs Model.Patch Proofs.FsProofs Proofs.PatchProofs Proofs.PatchAtomic Proofs.PatchText Proofs.PatchParse Proofs.PatchExamples.
 
 (* ---- ATOMICITY (the code after fix 6739939).  For every well-formed workspace tree f (unique
    keys, every entry's ancestors are directories), every patch document (well-formed or not), every
@@ -195,3 +195,24 @@ Example c12_witness_unfixed : apply_patch false [] wit_fs wit_patch = Failed wit
 Proof. exact wit_unfixed_run. Qed.
 Example c12_witness_fixed : apply_patch true [] wit_fs wit_patch = Failed wit_fs ENOENT.
 Proof. exact wit_fixed_run. Qed.
+
+(* ---- concrete instances: the hypotheses above are met by non-trivial inputs ---- *)
+(* a well-formed workspace; update+move (CRLF kept), re-add of the moved path, delete: success *)
+Example c12_ex_workspace_wf : wf_fsb ex_fs = true.
+Proof. exact ex_wf. Qed.
+Example c12_ex_success : apply_patch true [] ex_fs ex_patch_ok = Applied ex_after_ok ex_changed.
+Proof. exact ex_ok_run. Qed.
+(* the same three operations applied, then a hunk without its context: all rolled back (directory n stays) *)
+Example c12_ex_rollback_after_three_ops : apply_patch true [] ex_fs ex_patch_fail = Failed ex_after_fail EINVALDATA.
+Proof. exact ex_fail_run. Qed.
+Example c12_ex_malformed : parse_patch ex_bad_patch = None.
+Proof. exact ex_malformed. Qed.
+Example c12_ex_parsed : exists ops, parse_patch ex_patch_ok = Some ops /\ List.length ops = 3%nat.
+Proof. exact ex_parsed. Qed.
+(* repeated context: each hunk takes the first occurrence after the previous one; a third one finds none *)
+Example c12_ex_hunks_forward : apply_hunks_lines ex_lines 0 [ex_h1; ex_h1] = Some ex_hunks_result.
+Proof. exact ex_hunks_run. Qed.
+Example c12_ex_hunks_missing_context : apply_hunks_lines ex_lines 0 [ex_h1; ex_h1; ex_h1] = None.
+Proof. exact ex_hunks_fail. Qed.
+Example c12_ex_lf_text : apply_hunks_to_text ex_lf_in [ex_lf_hunk] = Some ex_lf_out.
+Proof. exact ex_text_lf. Qed.
